@@ -5,6 +5,7 @@ import MosnVerif.Lemmas.DispatchCtx
 import MosnVerif.Model.DispatchCtxSpec
 import MosnVerif.Lemmas.BufReuse
 import MosnVerif.Lemmas.HpackOrder
+import MosnVerif.Lemmas.StreamGen
 /-!
 # C02 — request/response correlation on an xprotocol client stream connection (property theorems only)
 
@@ -549,5 +550,88 @@ example : (decAll 8 [] ((Sys.start 8 wreqs (units leaky)).run [2, 2, 0, 1, 1, 0]
 example : decAll 8 [] ((Sys.start 8 [(1, [p0]), (3, [p0])] (units leaky)).run [0, 1, 1, 0]).wire = none := by decide
 
 end HpackWriteOrder
+
+/-! ## Stream objects in pooled buffers: the receiver wrapper destroys the generation it was made for (kind `sgen`)
+
+Model/StreamGen: pooled stream objects with identity and generation, one worker per exchange, one I/O goroutine per
+connection running the wrapper's `OnReceive` as the action list regenerated from pkg/stream/client.go. -/
+section StreamGenerations
+open MosnVerif.Model.StreamGen MosnVerif.Lemmas.StreamGen MosnVerif.Gen.RecvOrder
+
+/-- the regenerated order of clientStreamReceiverWrapper.OnReceive is destroy, then deliver -/
+theorem wrapper_destroys_before_delivering : realProg = goodProg := by decide
+
+/-- one wrapper per stream, bound to the caller's receiver, pointing at the protocol's (pooled) stream object; the
+decode-error path only notifies -/
+theorem wrapper_identity : wrapperPerStream = true ∧ wrapperKeepsPointer = true ∧ wrapperOnDecodeError = [.deliver] := by decide
+
+/-- HTTP/1 clears `conn.stream`, xprotocol removes the id from the table BEFORE the receiver is notified; xprotocol and
+HTTP/2 remove by the id read from the frame, never through the stream object (which may serve the next request
+once its receiver was notified: HTTP/2 removes after delivering) -/
+theorem tables_release_before_or_by_wire_id :
+    h1HandleResponse.head? = some .unslot ∧ xHandleResponse = [.removeKey, .deliver] ∧
+    Act.removeViaObj ∉ h2HandleFrame ∧ Act.destroy ∉ h2HandleFrame ∧ Act.removeKey ∈ h2HandleFrame := by decide
+
+/-- **destroy_hits_own_generation**: for EVERY schedule of worker and I/O steps, any number of exchanges, objects and
+connections and every hand-out order of the buffer pool: every DestroyStream a wrapper executes acts on the generation the
+wrapper was created for, and a connection the pool takes back through it is the connection of that wrapper's own exchange
+(whose response has been read: the wrapper only runs after the read) -/
+theorem destroy_hits_own_generation (evs : List Ev) :
+    ∀ r ∈ (run realProg {} evs).log, r.genHit = r.genMade ∧ ∀ c, r.gave = some c → c = r.own := by
+  rw [wrapper_destroys_before_delivering]
+  exact (inv_run evs {} inv_init).logOk
+
+/-- until its worker has finished it (which needs the notification), an exchange's pooled object keeps the generation
+and the listeners that exchange gave it: nobody re-initialises a stream object under a running wrapper -/
+theorem object_stable_until_finished (evs : List Ev) (k : Nat) :
+    let s := run realProg {} evs
+    (s.ex k).taken = true → (s.ex k).done = false →
+      (s.obj (s.ex k).obj).gen = (s.ex k).gen ∧ (s.obj (s.ex k).obj).owner = some k ∧ (s.obj (s.ex k).obj).lis = (s.ex k).conn := by
+  intro s ht hd
+  have h := (inv_run evs {} inv_init)
+  rw [← wrapper_destroys_before_delivering] at h
+  have := h.own k ht hd
+  exact ⟨this.1, this.2.1, this.2.2.1⟩
+
+/-- an exchange is notified at most once, with the answer its wrapper was started with -/
+theorem notified_once (evs : List Ev) (k : Nat) :
+    let s := run realProg {} evs
+    (s.ex k).got = [] ∨ (s.ex k).got = [(s.ex k).rtok] := by
+  intro s
+  have h := (inv_run evs {} inv_init)
+  rw [← wrapper_destroys_before_delivering] at h
+  by_cases hg : (s.ex k).got = []
+  · exact Or.inl hg
+  · exact Or.inr (h.gotOk k hg).2
+
+/- no_foreign_answer (FULL statement, not machine-checked in general): for every schedule, `(s.ex k).got = [j] → j = k`.
+It follows from destroy_hits_own_generation (a connection is idle in the pool only after the response of the exchange it
+was leased to has been read) together with the HTTP/1 / ping-pong pool theorems of C09 (an idle connection is leased to
+one exchange at a time); the composition is evaluated by the driver on every schedule of kind `sgen`, and proved here
+for the schedule family below only. -/
+def pipeline (n : Nat) : List Ev :=
+  (List.range n).flatMap (fun k => [.take k 0, .send k, .read 0, .io k, .io k, .finish k])
+
+set_option maxRecDepth 8000 in
+theorem no_foreign_answer_partial : ∀ k < 4, ((run realProg {} (pipeline 4)).ex k).got = [k] := by decide
+
+/-- the witness schedule: A answered, notified; its worker finishes and recycles; B takes the same object on a new
+connection; the I/O goroutine goes on; C asks the pool; B and C write; B's answer arrives -/
+def lateDestroy : List Ev :=
+  [.take 0 0, .send 0, .read 0, .io 0, .finish 0, .take 1 0, .io 0, .take 2 1, .send 1, .send 2, .read 1, .io 2, .io 2]
+
+/-- with the REAL order the worker's steps can only follow the whole wrapper and the same requests are harmless: everybody is answered by nobody else, each destroy hits its own generation -/
+example : let s := run realProg {} [.take 0 0, .send 0, .read 0, .io 0, .io 0, .finish 0, .take 1 0, .take 2 1, .send 1, .send 2,
+      .read 0, .io 1, .io 1, .read 1, .io 2, .io 2]
+    (s.ex 0).got = [0] ∧ (s.ex 1).got = [1] ∧ (s.ex 2).got = [2] ∧ (s.ex 1).obj = (s.ex 0).obj ∧ (s.ex 1).gen = 2 ∧
+    s.log.all (fun r => r.genHit == r.genMade) = true := by decide
+
+/-- NEGATION WITNESS for deliver-before-destroy: the late destroy hits generation 2 of object 0 (made by B), the pool
+takes B's connection back while B is in flight, C is leased it and receives B's answer -/
+example : let s := run [.deliver, .destroy] {} lateDestroy
+    (∃ r ∈ s.log, r.ex = 0 ∧ r.genMade = 1 ∧ r.genHit = 2 ∧ r.gave = some 1 ∧ r.own = 0) ∧
+    (s.ex 2).conn = (s.ex 1).conn ∧ (s.ex 2).got = [1] ∧ (s.ex 1).got = [] := by decide
+
+end StreamGenerations
 
 end MosnVerif.Props.C02
